@@ -11,8 +11,13 @@
   OBLIGATION c11_pinned_upper
   OBLIGATION c11_poly_norepeat_anynames
   OBLIGATION c11_poly_norepeat
+  OBLIGATION c11_value_checks_linear
+  OBLIGATION c11_value_checks_doc
+  OBLIGATION c11_value_recheck_exponential
+  OBLIGATION c11_value_recheck_exceeds_bound
 -/
 import AGV.Lemmas.Cost
+import AGV.Lemmas.CostValue
 
 namespace AGV.Props.C11
 open AGV.Core AGV.Model.Cost AGV.Spec.Cost AGV.Lemmas.Cost
@@ -198,5 +203,102 @@ theorem c11_pinned_upper (c : Config) (d : Doc) :
     cases hs : c.strict <;>
       simp only [passes, inlinePass, pinned, Counters.visits, modes_strict, modes_fast] <;>
       (repeat' split) <;> simp_all <;> omega
+
+-- ------------------------------------------------------------------ input-value checking
+
+section values
+open AGV.Model.CostValue AGV.Lemmas.CostValue
+
+/-- `is_valid_input_value` is linear in the value: for EVERY schema (whose input objects declare
+    each field name once — the registry keeps them in a map), type and value, the number of calls
+    is at most `c * size(value)` with `c = 1 + max(layers of the type, layers of any input type the
+    schema mentions)` (layers = list / non-null wrappers; `[[Int!]]!` has 4): every node of the value
+    is looked at once per layer of the type it is checked against. -/
+theorem c11_value_checks_linear (S : VSchema) (hS : InputsNodup S) (t : TypeRef) (v : GValue) :
+    valueChecks S t v ≤ (1 + max (wraps t) (schemaWraps S)) * gsize v ∧
+      valueChecks S t v ≤ valueBound (schemaWraps S) (wraps t) v := by
+  have h := vc_le_bound S hS (max (wraps t) (schemaWraps S))
+    (Nat.le_trans (inputsWraps_le S) (Nat.le_max_right _ _)) v t (Nat.le_max_left _ _)
+  exact ⟨h, h⟩
+
+/-- a schema with a recursive input object (list field, required field, enum) for the examples -/
+def exS : VSchema :=
+  { base := { types := [{ name := "Int", kind := .scalar }, { name := "Color", kind := .enum, values := ["RED", "GREEN"] },
+                        { name := "Filter", kind := .input }, { name := "Query", kind := .object }],
+              query := "Query" },
+    dirs := [],
+    inputs := [{ name := "Filter", oneof := false,
+                 fields := [{ name := "and", ty := .list (.nonNull (.named "Filter")), default := none },
+                            { name := "eq", ty := .nonNull (.named "Int"), default := none },
+                            { name := "c", ty := .named "Color", default := none }] }] }
+
+/-- the hypothesis is satisfiable, and the count is what the real control flow gives:
+    `{and: [{eq: 1}, {eq: "x", c: RED}, {eq: 3}], eq: 2}` against `Filter!` — 2 calls for the outer
+    object (`Filter!`, `Filter`), 1 for the list, 2 + 2 for `{eq: 1}`, 2 + 2 for the invalid second
+    element (its `c` is never reached), nothing for the third element nor for the outer `eq` -/
+example : InputsNodup exS ∧
+    vc {} exS (.obj [("and", .list [.obj [("eq", .int 1)], .obj [("eq", .str "x"), ("c", .enum "RED")], .obj [("eq", .int 3)]]),
+                     ("eq", .int 2)]) (.nonNull (.named "Filter")) = (11, false) := by
+  refine ⟨?_, by decide⟩
+  intro i hi
+  simp only [exS, List.mem_singleton] at hi
+  subst hi
+  decide
+
+/-- … hence the value checks of EVERY request (all argument values with the request's variables
+    substituted, all variable defaults, all walks of the mode) are at most
+    `passes * (1 + L) * (value nodes of the request)`, `L` = the most layers of any input type of
+    the schema or variable type of the document: polynomial (at most quadratic) in the request. -/
+theorem c11_value_checks_doc (S : VSchema) (hS : InputsNodup S) (strict : Bool) (r : Req) (d : Doc) :
+    valueTotal {} S strict r d ≤ passes strict * valueBoundDoc S r.vars d := by
+  have h := valueTotal_le S hS strict r d
+  have hp : 1 ≤ passes strict := by unfold passes; split <;> omega
+  calc valueTotal {} S strict r d ≤ 1 * valueBoundDoc S r.vars d := by omega
+    _ ≤ passes strict * valueBoundDoc S r.vars d := Nat.mul_le_mul_right _ hp
+
+/-- A variant that checks the first invalid element of a list twice (find its index, then check it
+    again for the message — a seeded change, NOT the pinned tree) is exponential: on
+    `[[…[null]…]]` (d levels, d + 1 value nodes) against `[[…[T!]…]]`, for every schema, type name
+    and d, it makes at least `2^d` calls, where the real control flow makes `d + 1`. -/
+theorem c11_value_recheck_exponential (S : VSchema) (n : String) (d : Nat) :
+    gsize (nest d) = d + 1 ∧ wraps (lists d (.nonNull (.named n))) = d + 1 ∧
+      valueChecks S (lists d (.nonNull (.named n))) (nest d) = d + 1 ∧
+      2 ^ d ≤ valueChecksRecheck S (lists d (.nonNull (.named n))) (nest d) := by
+  refine ⟨?_, ?_, ?_, (recheck_nest S n d).2⟩
+  · induction d with
+    | zero => simp [nest, gsize]
+    | succ d ih => simp only [nest, gsize, gsizeList, ih]; omega
+  · induction d with
+    | zero => simp [lists, wraps]
+    | succ d ih => simp only [lists, wraps, ih]; omega
+  · simp only [valueChecks, real_nest S n d]
+
+theorem pow_gt_quadratic (k : Nat) : (k + 8) * (k + 7) < 2 ^ (k + 6) ∧ 2 * (k + 8) ≤ 2 ^ (k + 6) := by
+  induction k with
+  | zero => decide
+  | succ k ih =>
+    have e : 2 ^ (k + 1 + 6) = 2 ^ (k + 6) + 2 ^ (k + 6) := by
+      rw [show k + 1 + 6 = (k + 6) + 1 from by omega, Nat.pow_succ]; omega
+    have e2 : (k + 1 + 8) * (k + 1 + 7) = (k + 8) * (k + 7) + 2 * (k + 8) := by
+      simp only [Nat.add_mul, Nat.mul_add]; omega
+    rw [e, e2]
+    omega
+
+/-- … which leaves the bound of `c11_value_checks_linear` from 6 levels on, in every schema with
+    no deeper input type: the check reports it as a violation, not only as a lost correspondence. -/
+theorem c11_value_recheck_exceeds_bound (S : VSchema) (n : String) (d : Nat) (h6 : 6 ≤ d)
+    (hW : schemaWraps S ≤ d + 1) :
+    valueBound (schemaWraps S) (wraps (lists d (.nonNull (.named n)))) (nest d)
+      < valueChecksRecheck S (lists d (.nonNull (.named n))) (nest d) := by
+  have h := c11_value_recheck_exponential S n d
+  obtain ⟨k, rfl⟩ : ∃ k, d = k + 6 := ⟨d - 6, by omega⟩
+  have hp := (pow_gt_quadratic k).1
+  simp only [valueBound, h.1, h.2.1, Nat.max_eq_left hW]
+  have e : (1 + (k + 6 + 1)) * (k + 6 + 1) = (k + 8) * (k + 7) := by
+    rw [show 1 + (k + 6 + 1) = k + 8 from by omega, show k + 6 + 1 = k + 7 from by omega]
+  rw [e]
+  exact Nat.lt_of_lt_of_le hp h.2.2.2
+
+end values
 
 end AGV.Props.C11
